@@ -181,6 +181,15 @@ impl<'a, F: PrimeField + Ord + From<u64> + ff::FromUniformBytes<64>> Dumper<'a, 
         // lookups
         let mut lks = vec![];
         for (li, l) in cs.lookups().iter().enumerate() {
+            // dynamic lookups (advice cells in the table expressions) are supported only when identically
+            // satisfied row by row: the input tuple is syntactically the table tuple of the SAME row on every
+            // usable row (a `lookup_any` of columns on themselves whose selector is never enabled, e.g. the
+            // foreign ECC chip's multi_select). Anything else still panics below.
+            if usable.clone().all(|row| {
+                l.input_expressions().iter().zip(l.table_expressions().iter()).all(|(i, t)| self.eval(i, row).0 == self.eval(t, row).0)
+            }) {
+                continue;
+            }
             let mut table: BTreeSet<Vec<F>> = BTreeSet::new();
             for row in usable.clone() {
                 let t: Vec<F> = l
